@@ -449,10 +449,15 @@ func (c *Ctl) PrioDelete(id int64) {
 	delete(c.prios, id)
 }
 
-func (c *Ctl) QueueEvent(q int64) {
+var queueStates = []schedulingv1beta1.QueueState{"", schedulingv1beta1.QueueStateOpen, schedulingv1beta1.QueueStateClosed, schedulingv1beta1.QueueStateClosing}
+
+// QueueEvent delivers a Queue version.  metadata.generation is never set: a version may
+// differ from the previous one in spec.weight only or in status.state only, with the same generation.
+func (c *Ctl) QueueEvent(q, weight, state int64) {
 	obj := &schedulingv1beta1.Queue{ObjectMeta: metav1.ObjectMeta{Name: QueueName(q), ResourceVersion: c.nextRV(),
 		Annotations: map[string]string{"verif.io/note": "q"}},
-		Spec: schedulingv1beta1.QueueSpec{Weight: 1}}
+		Spec:   schedulingv1beta1.QueueSpec{Weight: int32(weight)},
+		Status: schedulingv1beta1.QueueStatus{State: queueStates[state%4]}}
 	if old, ok := c.queues[q]; ok {
 		c.SC.UpdateQueueV1beta1(old, obj)
 	} else {
@@ -697,10 +702,64 @@ func encNodeList(l []string) []int64 {
 }
 
 // Dump is the encoding C08/Entry.v eCache produces.
-func (c *Ctl) Dump() []int64 {
+// what the cache holds of every queue: weight and state
+func (c *Ctl) encQueueInfo() []int64 {
+	ids := []int64{}
+	by := map[int64]*api.QueueInfo{}
+	for id, q := range c.SC.Queues {
+		n := QueueNum(string(id))
+		ids = append(ids, n)
+		by[n] = q
+	}
+	sort.Slice(ids, func(a, b int) bool { return ids[a] < ids[b] })
+	out := []int64{-116, int64(len(ids))}
+	for _, n := range ids {
+		q := by[n]
+		st := int64(0)
+		if q.Queue != nil {
+			for k, v := range queueStates {
+				if k > 0 && string(q.Queue.Status.State) == string(v) {
+					st = int64(k)
+				}
+			}
+		}
+		out = append(out, n, int64(q.Weight), st)
+	}
+	return out
+}
+
+// JobStatusUpdate: what the session does at the end of a cycle for a job of its snapshot:
+// SchedulerCache.UpdateJobStatus (PodGroup status through the StatusUpdater, the allocated-hypernode
+// annotation and AllocatedHyperNode written back into the cache's JobInfo)
+func (c *Ctl) JobStatusUpdate(j int64) {
+	job, ok := c.SC.Snapshot().Jobs[sched.JobID(j)]
+	if !ok || job.PodGroup == nil {
+		return
+	}
+	job.AllocatedHyperNode = "hn-verif"
+	if job.PodGroup.Annotations == nil {
+		job.PodGroup.Annotations = map[string]string{}
+	}
+	job.PodGroup.Annotations[api.JobAllocatedHyperNode] = "hn-verif"
+	job.PodGroup.Status.Running = int32(len(job.TaskStatusIndex[api.Running]))
+	// the session has worked on its copy: a pending task is Allocated there
+	for _, t := range jobTasks([]*api.JobInfo{job}) {
+		if t.Status == api.Pending {
+			job.UpdateTaskStatus(t, api.Allocated)
+			break
+		}
+	}
+	if _, err := c.SC.UpdateJobStatus(job, true, true, true); err != nil {
+		panic(err)
+	}
+	// whatever the call kept of the session's job must not be the session's own cells
+	DeepMutate(job)
+}
+
+func (c *Ctl) Dump() (out []int64) {
 	sc := c.SC
 	jobs := sortedJobs(sc.Jobs)
-	out := []int64{-110}
+	out = []int64{-110}
 	out = append(out, encTasks(jobTasks(jobs))...)
 	out = append(out, -111, int64(len(jobs)))
 	for _, j := range jobs {
@@ -727,6 +786,7 @@ func (c *Ctl) Dump() []int64 {
 		i := strings.LastIndex(k, "/")
 		out = append(out, jobNum(api.JobID(k[:i])), pgUID(types.UID(k[i+1:])))
 	}
+	defer func() { out = append(out, c.encQueueInfo()...) }()
 	// the priority Snapshot() gives every job it contains (priorityClassName lookup, default fallback)
 	snap := sortedJobs(sc.Snapshot().Jobs)
 	out = append(out, -115, int64(len(snap)))
